@@ -232,6 +232,19 @@ def r4_guarded_deref(ctx):
                 if isinstance(r, ast.Call) and dotted_name(r.func) == "isinstance" and len(r.args) == 2 and "bool" in norm(r.args[1]):
                     tests[norm(r.args[0])] = t.extra
             for c2 in calls[-1:]:
+                # the receiver is made from the left token and the argument from the right one
+                if meth == "operate_binary" and c2.args:
+                    rtxt, atxt = norm(c2.func.value), norm(c2.args[0])
+                    crossed = []
+                    if "get_right(" in rtxt and "get_left(" not in rtxt:
+                        crossed.append(f"receiver built from the right token: {rtxt[:70]}")
+                    if "get_left(" in atxt and "get_right(" not in atxt:
+                        crossed.append(f"argument built from the left token: {atxt[:70]}")
+                    if "get_left(" in rtxt and "get_right(" in rtxt or "get_left(" in atxt and "get_right(" in atxt:
+                        pass        # mixes both (e.g. a test on one selecting the other): not decided here
+                    if crossed:
+                        ctx.violated(LS, f"{cname}.{meth}", "left and right operand keep their sides when bare booleans are wrapped", detail=crossed,
+                                     expected="left.logical_op(right), each wrapped from its own token")
                 for o in [c2.func.value] + list(c2.args):
                     seen += 1
                     if isinstance(o, ast.IfExp) and isinstance(o.test, ast.Call) and dotted_name(o.test.func) == "isinstance" and "bool" in norm(o.test.args[1]) \
